@@ -109,7 +109,7 @@ def units(tier):
         for sh in ("sym", ".", "sym+k", ".-k"):
             us.append(("offset[%d,%s]" % (bits, sh), "unit_offset_encode", dict(bits=bits, unsigned=uns, shape=sh, lazy=True)))
     for name, fn, kw in deferred_c.all_units():
-        if name.startswith("poly[") and ("x-x" in name or "x-y" in name or name.startswith("poly[sub") or "x+n" in name or "n+x" in name):
+        if name.startswith("poly-wait") or name.startswith("poly[") and ("x-x" in name or "x-y" in name or name.startswith("poly[sub") or "x+n" in name or "n+x" in name):
             us.append((name, fn, kw))
     return us
 
@@ -132,4 +132,8 @@ def replay(o, tree):
         return c01.replay_rm(cfg, o.get("witness") or {}, tree)
     if cfg.get("kind") == "offset":
         return c04.replay_offset(cfg, o.get("witness") or {}, tree)
+    if cfg.get("kind") == "poly-nested":
+        return deferred_c.replay_poly_nested(cfg, o.get("witness") or {}, tree)
+    if cfg.get("kind") == "poly-selfref":
+        return deferred_c.replay_poly_selfref(cfg, o.get("witness") or {}, tree)
     return None
